@@ -4,11 +4,18 @@ Workload : seeded well-formed FlowIR documents (checks/_c11_gen.py: 2-7 componen
            relative/absolute references with ref/output/copy/link, variables in global/stage/component
            layers and chains, array variables indexed by a literal / another variable / %(replica)s in
            arguments, executable, lsf.queue and numberThreads, options with documented values, replication/aggregation, declaration order
-           shuffled) and, per document, EVERY applicable single-fault mutant: drop a referenced component,
+           shuffled; in 3 of 4 documents some references are spelled through variables - the producer, its name,
+           the stage number, the stage prefix, producer and file or the method held in a global / stage /
+           component / platform variable or a chain, in the list and/or on the command line - and 1 in 3 of those
+           is loaded for a second platform whose variables hold or override them) and, per document, EVERY
+           applicable single-fault mutant: drop a referenced component,
            rename a reference, add a back edge / self reference, duplicate an id, misspell or add a key at
            every level, give every present (and two absent) option(s) a value of the wrong type, remove a
            used variable that one layer defines (plain, array and array-index variables), rename the array /
-           the index variable at the place of use.
+           the index variable at the place of use; the reference faults also through variables: a variable
+           whose value names a missing producer, a spelled-out reference replaced by one that reaches the
+           missing producer through a new variable, a back edge / self reference held in a new variable, the
+           variable of a reference removed.
 Observed : WorkflowGraph.graphFromFlowIR(doc, manifest, primitive=False)            (dictionary API)
            ExperimentConfigurationFactory.configurationForExperiment(pkg, validate=True, primitive=False)
                                                                                      (file API, package on disk)
@@ -43,6 +50,7 @@ PROP = "C11"
 
 K_BOOLWORD = "C11:aggregate-word-accepted"
 K_RAWCTOR = "C11:dict-api-concrete-constructor-raw-exception"
+K_VARCYCLE = "C11:cycle-through-variable-spelled-reference"
 
 
 from checks import _c11_watchdog as WD  # noqa: E402
@@ -106,6 +114,7 @@ def accept_side(wg, manifest_keys):
         pass
     nset = set(nodes)
     for n in nodes:
+        mst = re.match(r"stage(\d+)\.", n)
         try:
             conf = wg.configuration.configurationForNode(n)
         except CaseTimeout:
@@ -120,14 +129,18 @@ def accept_side(wg, manifest_keys):
             first = ref.split(":")[0].split("/")[0]
             if first in folders:
                 continue
+            # a reference held in a variable keeps its relative form: it is relative to the stage of its owner
+            if mst and ("stage%s.%s" % (mst.group(1), first)) in nset:
+                continue
             problems.append("reference %r of %s points to nothing (nodes %r)" % (ref, n, sorted(nset)))
     return {"nodes": sorted(nodes), "n_edges": g.number_of_edges(), "problems": problems}, None
 
 
-def observe_dict(doc, manifest):
+def observe_dict(doc, manifest, platform=None):
     import experiment.model.graph
     try:
-        wg = experiment.model.graph.WorkflowGraph.graphFromFlowIR(copy.deepcopy(doc), dict(manifest), primitive=False)
+        wg = experiment.model.graph.WorkflowGraph.graphFromFlowIR(copy.deepcopy(doc), dict(manifest), primitive=False,
+                                                                  platform=platform)
     except CaseTimeout:
         raise
     except BaseException as e:  # noqa
@@ -155,14 +168,15 @@ def write_package(doc, files, root):
     return pkg
 
 
-def observe_file(doc, files, materialise=False):
+def observe_file(doc, files, materialise=False, platform=None):
     import experiment.model.conf
     root = vlib.mkscratch("c11pkg")
     try:
         pkg = write_package(doc, files, root)
         try:
             conf = experiment.model.conf.ExperimentConfigurationFactory.configurationForExperiment(
-                pkg, validate=True, primitive=False, createInstanceFiles=False, updateInstanceFiles=False)
+                pkg, platform=platform, validate=True, primitive=False, createInstanceFiles=False,
+                updateInstanceFiles=False)
         except CaseTimeout:
             raise
         except BaseException as e:  # noqa
@@ -191,8 +205,8 @@ def observe_file(doc, files, materialise=False):
             import experiment.model.storage
             import experiment.model.data
             try:
-                ep = experiment.model.storage.ExperimentPackage.packageFromLocation(pkg)
-                exp = experiment.model.data.Experiment.experimentFromPackage(ep, location=root)
+                ep = experiment.model.storage.ExperimentPackage.packageFromLocation(pkg, platform=platform)
+                exp = experiment.model.data.Experiment.experimentFromPackage(ep, location=root, platform=platform)
                 exp.validateExperiment(checkExecutables=False)
                 import networkx
                 if not networkx.is_directed_acyclic_graph(exp.graph):
@@ -211,8 +225,9 @@ def observe_file(doc, files, materialise=False):
 
 def observe(case):
     if case["api"] == "dict":
-        return observe_dict(case["doc"], case.get("manifest") or {})
-    return observe_file(case["doc"], case.get("files") or {}, materialise=case.get("materialise", False))
+        return observe_dict(case["doc"], case.get("manifest") or {}, platform=case.get("platform"))
+    return observe_file(case["doc"], case.get("files") or {}, materialise=case.get("materialise", False),
+                        platform=case.get("platform"))
 
 
 def warmup():
@@ -287,11 +302,29 @@ def judge_base(out, api, ids):
     return None
 
 
-def classify(mut, out_by_api):
+def cycle_only_through_variables(doc, platform):
+    """True when the references of doc close a dependency cycle, and no cycle is left once the references
+    whose producer is spelled with a variable are ignored (read back from the document, not from the loader)"""
+    import networkx
+    full, literal = networkx.DiGraph(), networkx.DiGraph()
+    for a, b, through_variable in G.resolved_edges(doc, platform):
+        full.add_edge(a, b)
+        if not through_variable:
+            literal.add_edge(a, b)
+    return (not networkx.is_directed_acyclic_graph(full)) and networkx.is_directed_acyclic_graph(literal)
+
+
+def classify(mut, out_by_api, case=None):
     """known-finding classifier over the witness"""
     if not mut:
         return None
     path = list(mut.get("where") or [])[1:]
+    # the only load-time cycle detector (the topological sort of FlowIR.propagate_replicate) does not see a
+    # reference whose producer is spelled with a variable: a cycle that needs such a reference is accepted
+    if (mut.get("class") == "cycle" and case is not None
+            and all(o["status"] == "accepted" for o in out_by_api.values())
+            and cycle_only_through_variables(case["doc"], case.get("platform"))):
+        return K_VARCYCLE
     if (mut["kind"] == "wrong-type" and mut.get("class") == "word-for-bool" and mut.get("doc_type") == "bool"
             and path == ["workflowAttributes", "aggregate"]
             and isinstance(mut.get("value"), str)
@@ -317,19 +350,25 @@ def base_key(base):
     d = base["doc"]
     comps = d["components"]
     layers = sorted({l[0][0] for l in base["var_layers"].values()})
-    return "b|c%d|s%d|e%d|r%d|%s|a%d" % (len(comps), len({c.get("stage", 0) for c in comps}),
-                                         min(len(G.edges_of(d)), 6), int(base["replicated"]),
-                                         "".join(x[0] for x in layers), min(len(base.get("arrays", [])), 3))
+    sp = base.get("spelled") or []
+    return "b|c%d|s%d|e%d|r%d|%s|a%d|v%d%s|p%d" % (
+        len(comps), len({c.get("stage", 0) for c in comps}), min(len(G.edges_of(base.get("lit") or d)), 6),
+        int(base["replicated"]), "".join(x[0] for x in layers), min(len(base.get("arrays", [])), 3),
+        min(len(sp), 3), "".join(sorted({x["form"][0] + x["form"][-1] for x in sp}))[:8], int(bool(base.get("platform"))))
 
 
 def mut_key(m, base):
     where = m["where"]
     opt = ".".join(str(x) for x in where[1:]) if m["kind"] in ("wrong-type", "misspelt-key", "extra-key") else ""
-    return "m|%s|%s|%s|c%d|r%d" % (m["kind"], m.get("class"), opt, len(base["doc"]["components"]), int(base["replicated"]))
+    return "m|%s|%s|%s|c%d|r%d|%s|p%d" % (m["kind"], m.get("class"), opt, len(base["doc"]["components"]),
+                                          int(base["replicated"]), m.get("spell"), int(bool(base.get("platform"))))
 
 
 ALWAYS_FILE_API = ("duplicate-id", "remove-index-variable", "remove-array-variable", "rename-index-at-use",
                    "rename-array-at-use", "index-out-of-range")
+# mutants whose fault sits in / behind a reference spelled with a variable: every second one also on the file API
+SPELLED_KINDS = ("back-edge-through-variable", "self-reference-through-variable", "rename-reference-in-variable",
+                 "rename-reference-through-variable", "remove-reference-variable")
 
 
 def run_job(job, w):
@@ -344,8 +383,9 @@ def run_job(job, w):
         produced += 1
         doc = base["doc"]
         ok = True
+        platform = base.get("platform")
         for api in ("dict", "file"):
-            case = {"api": api, "doc": doc, "files": base["files"], "manifest": {},
+            case = {"api": api, "doc": doc, "files": base["files"], "manifest": {}, "platform": platform,
                     "materialise": api == "file" and (this % job["materialise_every"] == 0)}
             out = observe_guarded(case, w)
             if out["status"] == "unknown":
@@ -370,6 +410,15 @@ def run_job(job, w):
         w.distinct(base_key(base))
         if base["replicated"]:
             w.count("base_replicated")
+        if base.get("spelled"):
+            w.count("base_with_variable_spelled_references")
+            w.count("variable_spelled_reference_sites", len(base["spelled"]))
+            if platform:
+                w.count("base_loaded_for_a_non_default_platform")
+            for sp in base["spelled"]:
+                w.count("spelled_form_%s_%s" % (sp["form"], sp["where"]))
+                for rec in sp["vars"]:
+                    w.count("spelled_variable_layer_" + ("chain" if rec.get("chain") else "+".join(l[0] for l in rec["layers"])))
         if base.get("arrays"):
             w.count("base_with_array_variables")
             w.count("array_access_sites", len(base["arrays"]))
@@ -380,11 +429,13 @@ def run_job(job, w):
             w.sample({"base": doc, "n_mutants": len(ms), "first_mutant": {k: ms[0][k] for k in ("kind", "class", "where")}})
         for k, m in enumerate(ms):
             apis = ["dict"]
-            if m["kind"] in ALWAYS_FILE_API or (this + k) % job["file_every"] == 0:
+            spelled_fault = m["kind"] in SPELLED_KINDS or bool(m.get("spell")) or bool(m.get("via_variable"))
+            if (m["kind"] in ALWAYS_FILE_API or (this + k) % job["file_every"] == 0
+                    or (spelled_fault and (this + k) % 2 == 0)):
                 apis.append("file")
             outs = {}
             for api in apis:
-                case = {"api": api, "doc": m["doc"], "files": base["files"], "manifest": {}}
+                case = {"api": api, "doc": m["doc"], "files": base["files"], "manifest": {}, "platform": platform}
                 out = observe_guarded(case, w)
                 if out["status"] == "unknown":
                     w.note_inconclusive("watchdog fired on a mutant but confirmation was not conclusive")
@@ -400,12 +451,16 @@ def run_job(job, w):
                 w.count("mutant_cases")
                 w.count("mutant_%s_api" % api)
                 w.count("mutant_" + m["kind"])
+                if spelled_fault:
+                    w.count("mutant_fault_at_variable_spelled_reference")
+                    w.count("mutant_fault_at_variable_spelled_reference_%s_api" % api)
                 bad = judge_mutant(out, api)
                 if bad:
+                    case = {"api": api, "doc": m["doc"], "files": base["files"], "manifest": {}, "platform": platform}
                     w.violation("mutant %s/%s at %s: %s" % (m["kind"], m.get("class"), "/".join(map(str, m["where"])), bad),
-                                {"kind": "mutant", "mutation": mrec, "case": {"api": api, "doc": m["doc"], "files": base["files"], "manifest": {}},
+                                {"kind": "mutant", "mutation": mrec, "case": case,
                                  "outcome": out, "outcomes_all_apis": outs},
-                                classify(mrec, outs if api != "dict" or out["status"] != "other" else {"dict": out}))
+                                classify(mrec, outs if api != "dict" or out["status"] != "other" else {"dict": out}, case))
                 else:
                     w.count("mutant_rejected_properly")
                     w.count("rejected_family_" + str(out.get("family")))
@@ -453,7 +508,7 @@ def replay(c, rp):
         key = None
     else:
         bad = judge_mutant(out, case["api"])
-        key = classify(wit.get("mutation"), {case["api"]: out})
+        key = classify(wit.get("mutation"), {case["api"]: out}, case)
     if bad:
         w.violation(bad, {**wit, "outcome": out}, key)
     c.merge_worker(w.summary())
@@ -463,11 +518,21 @@ def replay(c, rp):
 def main():
     c = vlib.Check(PROP, "fault_enumeration",
                    rule="distinct structural classes: base documents by (#components, #stages, #edges, replicated, "
-                        "variable layers used); mutants by (fault kind, value class, option path / key level, "
-                        "#components, replicated)",
+                        "variable layers used, #array sites, #variable-spelled references and their forms, platform); "
+                        "mutants by (fault kind, value class, option path / key level, #components, replicated, "
+                        "spelling form of the faulty reference, platform)",
                    assumptions=[
-                       "base documents contain no DoWhile / $import documents, no platform overrides and only the "
-                       "default platform; loop placeholders are therefore not exercised (see C05)",
+                       "base documents contain no DoWhile / $import documents and no component 'override' sections; "
+                       "loop placeholders are therefore not exercised (see C05); a second platform only contributes "
+                       "variables (global / stage) and is then the platform that both APIs load",
+                       "a reference whose producer replicates is never spelled through a variable (replication does not "
+                       "follow such references: the loader rejects the document as a dangling reference - C03 territory); "
+                       "a whole reference held in one variable ('%(r)s' = 'stage0.b:ref') is not generated: the loader "
+                       "requires the ':method' to be visible and rejects it with an invalid-configuration error; one "
+                       "variable is never defined in two layers of different kind",
+                       "faults inside the 'override' section of a platform that is not the one being loaded are recorded "
+                       "as information only (info_override-unselected-platform-* counters): a replicated load validates "
+                       "the instance of the selected platform, the statement does not say which platform's options count",
                        "wrongly typed values are restricted to values that can never be read as the documented type "
                        "(a word for a number/boolean, a list or dictionary for a scalar, a scalar for a list, an "
                        "unknown constant for an enumeration); numeric strings, floats for ints, ints for strings are "
@@ -478,7 +543,8 @@ def main():
                        "on the dictionary API a FlowIRException / FlowIRSyntaxException subclass is an accepted "
                        "rejection (duplicate identifiers are detected while FlowIRConcrete is constructed, before the "
                        "loader's error collection starts)",
-                       "the file API is exercised for every duplicate-id and array-variable mutant and a deterministic 1-in-k sample of the others",
+                       "the file API is exercised for every duplicate-id and array-variable mutant, every second mutant whose "
+                       "fault sits in or behind a variable-spelled reference and a deterministic 1-in-k sample of the others",
                        "an out-of-range literal array index is recorded as information only (info_index-out-of-range_* counters), not judged",
                    ])
     rp = vlib.load_replay(sys.argv)
@@ -514,6 +580,15 @@ def main():
     for kind in ("remove-index-variable", "remove-array-variable", "rename-index-at-use", "rename-array-at-use"):
         c.floor("mutant_" + kind, 300 if thorough else 40)
     c.floor("base_with_array_variables", 300 if thorough else 60)
+    # references spelled through variables
+    c.floor("base_with_variable_spelled_references", 300 if thorough else 50)
+    c.floor("base_loaded_for_a_non_default_platform", 100 if thorough else 15)
+    c.floor("variable_spelled_reference_sites", 500 if thorough else 70)
+    for kind in ("back-edge-through-variable", "self-reference-through-variable", "rename-reference-through-variable"):
+        c.floor("mutant_" + kind, 1000 if thorough else 100)
+    for kind in ("rename-reference-in-variable", "remove-reference-variable"):
+        c.floor("mutant_" + kind, 400 if thorough else 50)
+    c.floor("mutant_fault_at_variable_spelled_reference_file_api", 2000 if thorough else 300)
     sys.exit(c.finish())
 
 
